@@ -492,7 +492,11 @@ func (c *cbComp) Run(h *hlib.History) ([]hlib.Mon, bool) {
 	next := http.HandlerFunc(func(w http.ResponseWriter, req *http.Request) {
 		rq := req.Context().Value(reqKey{}).(*request)
 		r.entered <- rq
-		w.WriteHeader(<-rq.release)
+		code := <-rq.release
+		if code%3 == 0 {
+			w.WriteHeader(http.StatusEarlyHints) // an interim response first: the response's status is the final one
+		}
+		w.WriteHeader(code)
 	})
 	fallback := http.HandlerFunc(func(w http.ResponseWriter, req *http.Request) {
 		rq := req.Context().Value(reqKey{}).(*request)
